@@ -126,6 +126,17 @@ def execute(case):
     if case.get("check_open") and cached_from is None:
         for b in check_open(_open_logs[key], fname, im, rpc):
             fails.append({"sig": {"kind": "open"}, "detail": f"{tc} {L}x{P} rpc={rpc}: {b}", "case": {**case, "ops": []}})
+        # the metadata pass is the same whenever the image itself is read: also when the open is asked to write a cache,
+        # and when use_cache=True finds none
+        from mc import env
+
+        for kw in ({"create_cache": True, "use_cache": False}, {"create_cache": True, "use_cache": True}, {"use_cache": True}):
+            env.wipe_cache()
+            vfs.reset_log()
+            prod.open(records_per_chunk=rpc, **kw)
+            for b in check_open(list(vfs.LOG), fname, im, rpc):
+                fails.append({"sig": {"kind": "open", "options": str(sorted(kw.items()))}, "detail": f"{tc} {L}x{P} rpc={rpc} open with {kw}: {b}", "case": {**case, "ops": []}})
+        env.wipe_cache()
     n = n_loaded = n_agree = n_skip = 0
     work = [("", da, op) for op in case["ops"]]
     if case.get("check_open"):
